@@ -727,7 +727,7 @@ func (r *run) step(st mbt.Step) error {
 			failed = failed || mbt.Step(c.(map[string]any)).Bool("fail")
 		}
 		if st.Bool("stop") {
-			if !r.noteStopped(wait) {
+			if !r.noteStopped(600 * time.Millisecond) {
 				return driftf("LoopBatchTimeout: the operator did not stop after the handler call of the time-out flush failed")
 			}
 		} else if failed && r.noteStopped(60*time.Millisecond) {
